@@ -68,20 +68,19 @@ def wasm_function_count(path):
 def corpus(seed, count=96):
     """Synthetic modules (seeded) + a seeded sample of the repo's spec-suite modules + coremark."""
     spec_dir = os.path.join(REPO, "tests", "gen")
+    # Valid spec-suite modules: the committed list tools/spec_valid_list.txt (modules loaded by a plain (module ...) command that
+    # translated with exit 0 at the pinned tree), NOT "whatever the translator under test accepts today" - a module that
+    # stops translating must show up as a violation instead of silently leaving the corpus.
     spec = []
-    if os.path.isdir(spec_dir):
-        # only the files the spec scripts load with a plain (module ...) command are valid modules
-        for j in sorted(f for f in os.listdir(spec_dir) if f.endswith(".json")):
-            try:
-                with open(os.path.join(spec_dir, j)) as f:
-                    cmds = json.load(f).get("commands", [])
-            except (OSError, ValueError):
+    with open(os.path.join(VERIF, "tools", "spec_valid_list.txt")) as f:
+        for line in f:
+            if line.startswith("#") or not line.strip():
                 continue
-            for c in cmds:
-                if c.get("type") == "module" and str(c.get("filename", "")).endswith(".wasm") and os.path.exists(os.path.join(spec_dir, c["filename"])):
-                    spec.append(c["filename"])
-        spec = sorted(set(spec))
-    key = sha(hash_files([os.path.join(VERIF, "tools", "wasmgen.py"), os.path.join(VERIF, "tools", "wasmenc.py")]), str(seed), str(count), hash_files([os.path.join(spec_dir, f) for f in spec[:200]]), "v5")
+            fn, h = line.split()
+            path = os.path.join(spec_dir, fn)
+            if os.path.exists(path) and sha256_file(path)[:16] == h:
+                spec.append(fn)
+    key = sha(hash_files([os.path.join(VERIF, "tools", "wasmgen.py"), os.path.join(VERIF, "tools", "wasmenc.py"), os.path.join(VERIF, "tools", "spec_valid_list.txt")]), str(seed), str(count), str(len(spec)), "v6")
     d, ok = cached_dir("xlcorpus", key)
     if ok:
         return d
@@ -89,31 +88,31 @@ def corpus(seed, count=96):
     os.makedirs(d)
     run_cmd([sys.executable, os.path.join(VERIF, "tools", "wasmgen.py"), "xlcorpus", d, str(seed), str(count)])
     rnd = random.Random(seed)
-    lines = []
-    xl, _ = build_translator_plain()
-    picks = rnd.sample(spec, min(48, len(spec)))
+    lines, sweep = [], []
+    picks = set(rnd.sample(spec, min(48, len(spec))))
     extra = [os.path.join(REPO, "examples", "coremark", "coremark.wasm")]
-    tmp = os.path.join(d, "_probe")
-    os.makedirs(tmp, exist_ok=True)
-    for path in [os.path.join(spec_dir, f) for f in picks] + extra:
+    for path in [os.path.join(spec_dir, f) for f in spec] + extra:
         if not os.path.exists(path):
             continue
-        # only modules the plain translator accepts are "valid modules in the supported feature set"
-        r = subprocess.run([xl, path, os.path.join(tmp, "x.c")], stdout=subprocess.PIPE, stderr=subprocess.PIPE, timeout=60, cwd=tmp)
-        if r.returncode != 0:
-            continue
-        for fn in os.listdir(tmp):
-            os.unlink(os.path.join(tmp, fn))
         # self-contained corpus: copy the module (the repo tree may be a scratch copy that disappears)
         local = "spec_" + os.path.basename(path)
         shutil.copy(path, os.path.join(d, local))
-        lines.append("%s - %d %d -" % (local, wasm_function_count(path), os.path.getsize(path)))
-    shutil.rmtree(tmp, ignore_errors=True)
+        ent = "%s - %d %d -" % (local, wasm_function_count(path), os.path.getsize(path))
+        sweep.append(ent)
+        if os.path.basename(path) in picks or path in extra:
+            lines.append(ent)
     with open(os.path.join(d, "corpus.txt"), "a") as f:
         f.write("\n".join(lines) + "\n")
+    with open(os.path.join(d, "sweep.txt"), "w") as f:
+        f.write("\n".join(sweep) + "\n")
     mark_done(d)
     prune_cache("xlcorpus", keep=4)
     return d
+
+
+def sweep_size(cdir):
+    with open(os.path.join(cdir, "sweep.txt")) as f:
+        return sum(1 for l in f if l.strip())
 
 
 COMPONENTS = {
@@ -437,6 +436,11 @@ def check(prop, tier, seed, replay=None):
     pool = WorkerPool(mk([]), total, wall_cap=(900 if tier == "quick" else 7200))
     run_wall = pool.run()
     allres, crashes, internal = list(pool.results), list(pool.crashes), list(pool.internal)
+    if prop == "C10":
+        # every valid spec-suite module once, untruncated, under a seeded option combination and schedule
+        pool3 = WorkerPool(mk(["--sweep"]), sweep_size(cdir), wall_cap=1800)
+        run_wall += pool3.run()
+        allres += pool3.results; crashes += pool3.crashes; internal += pool3.internal
     if prop == "C10" and tier == "thorough":
         # exhaustive truncation points for the small corpus modules (groups of 4096 indices)
         ngroups = int(os.environ.get("VERIF_C10_GROUPS", "48"))
